@@ -282,6 +282,9 @@ func (w *wireEx) Do(op string) core.Result {
 			}
 			if dm.Class == "ok" && dm.Code == want {
 				impl = append(impl, fmt.Sprintf("%d:unreachable", i))
+			} else if dm.Class != "ok" && i > 0 && headChunked[i-1] && bytes.HasPrefix(down[i], []byte("\r\n")) {
+				impl = append(impl, fmt.Sprintf("%d:unreachable-but[%s]", i, dm.Line(0)))
+				fail("c01:head-chunked-stray-crlf", fmt.Sprintf("response %d is preceded by the CRLF written after the HEAD answer with Transfer-Encoding: chunked (request %d)", i, i-1))
 			} else {
 				impl = append(impl, fmt.Sprintf("%d:unreachable-but[%s]", i, dm.Line(0)))
 				fail("c01:wire-own-answer", fmt.Sprintf("request %d (refusing target / skipped round trip) was answered %s", i, dm.Line(0)))
